@@ -1083,6 +1083,9 @@ class TestResult(unittest.TestResult):
             self.stop()
 
     def stopTest(self, test):
+        # A test interrupted without a result event (KeyboardInterrupt)
+        # must not leave the buffered streams installed.
+        self._restoreStdStreams()
         self.testTearDown()
         # Without clearing, cyclic garbage referenced by the test
         # would be reported in the following test.
